@@ -102,11 +102,11 @@ CHECKS = {
         ],
     },
     "C17": {
-        "units": ["dual_core"],
+        "units": ["dual_core", "dual_ops"],
         "level": "proof",
         "assumptions": DUAL_ASSUMPTIONS,
         "uncovered": [
-            "the product-rule identity for manifolds is a consequence of the gradient1_manifold contract and C02's Mul contract; it is not separately stated as a lemma",
+            
             "requested lists with duplicate names: gradient1/gradient2 drop duplicates (first occurrence kept) and are covered; gradient1_manifold is specified for distinct names only, as the property states",
         ],
     },
@@ -136,7 +136,7 @@ CHECKS = {
             "R8': in the refusal copies `panic!` is a diverging call; each copy is verified against `ensures false` under the precondition that the operands are a Dual/Dual2 mix",
         ],
         "uncovered": [
-            "Sum for Number, abs_sub / signum / is_positive / is_negative of the Signed impls, Num::from_str_radix, NumberOps marker impls: not under contract",
+            "abs_sub / signum / is_positive / is_negative of the Signed impls, Num::from_str_radix, NumberOps marker impls: not under contract (not part of the statement); Sum for Number is under contract for sequences that do not mix first- and second-order numbers (Iterator::fold with an accumulator invariant is an assumed shim)",
             "the Python-facing wrappers in dual_py.rs",
         ],
     },
@@ -149,7 +149,7 @@ CHECKS = {
         ],
         "uncovered": [
             "abs at exactly zero (the property is silent there)",
-            "Sum for Number (needs 'no Dual/Dual2 mix in the sequence')",
+            "Sum for Number is covered for sequences without a Dual/Dual2 mix (for a mixed sequence the sum is refused by the `+` it folds with, C18)",
         ],
     },
     "C11": {
